@@ -10,6 +10,11 @@ CONSTANTS
   Video <- Vid2
   NoBtrt <- T2
   RecordHist = FALSE
+  FixBufResize = FALSE
+  FixCtrResize = FALSE
+  FixDropBound = FALSE
+  FixDeriveGuards = FALSE
+  FixLateTrack = FALSE
 INVARIANTS SyncNoPanic Listed SyncBounded TypeOK
 PROPERTIES NewestMono
 CONSTRAINT FirstBeforeSecond
